@@ -8,7 +8,7 @@ from pvc import driver, smt
 from pvc.driver import Finding
 from pvc.interp import Interp, Path, PyDict
 from pvc.models import Models
-from pvc.sym import PyRaise, SObj
+from pvc.sym import Unsupported,  PyRaise, SObj
 from replay import sklearn_native
 
 PROPERTY = "C17"
@@ -58,6 +58,8 @@ def check_basics(run):
             I.call(I.getattr(obj, "set_params"), [], dict(gp.d))
             if any(obj.fields[k] is not vals[k] for k in K.ALLOWED):
                 problems.append(f"{how}: set_params(**get_params()) changed a parameter")
+        except Unsupported as u:
+            run.undecided.append(f"C17.py.basics[{how}] (interpreter: {u}; covered by the native round-trip checks only)")
         except (PyRaise, Exception) as e:
             problems.append(f"{how}: {type(e).__name__} {e}")
     ob = run.prove("C17.py.basics.six_parameters_stored_returned_round_trip", [], z3.BoolVal(not problems), function=fn)
@@ -74,6 +76,9 @@ def check_set_params(run):
         I.inline |= {"formak.python:SklearnEKFAdapter.set_params"}
         try:
             obj, cfg, vals, outcome = K.run_set_params(I, keys)
+        except Unsupported as u:
+            run.undecided.append(f"C17.py.set_params[{'+'.join(keys)}] (interpreter: {u}; covered by the native checks only)")
+            continue
         except Exception as e:
             bad.append((keys, f"checker could not execute: {type(e).__name__}: {e}"))
             continue
